@@ -55,7 +55,9 @@ Definition path_kw : list string := ["super"; "self"; "Self"; "crate"].
 (** a segment [Path::parse_mod_style] accepts *)
 Definition mod_seg_ok (s : string) : bool := negb (is_keyword s) || mem_str s path_kw.
 (** a segment [Path::parse] (expression / type style) accepts *)
-Definition path_seg_ok (s : string) : bool := mod_seg_ok s || String.eqb s "try".
+(** (`try` is a path segment only under syn's "full" feature, which the crate does not
+    enable by default: without it `try` is refused like any other keyword) *)
+Definition path_seg_ok (s : string) : bool := mod_seg_ok s.
 
 Section PathSegs.
   Variable ok : string -> bool.
@@ -78,6 +80,9 @@ End PathSegs.
 
 Definition parse_mpath (ts : toks) : option (mpath * toks) :=
   match ts with
+  | TIdent "unsafe" :: r =>
+      (* attr.rs parse_outermost_meta_path: the keyword `unsafe` alone is a meta path *)
+      Some ({| mp_lead := false; mp_segs := ["unsafe"] |}, r)
   | TPunct "::" :: r =>
       match path_segs mod_seg_ok r with
       | Some (l, rest) => Some ({| mp_lead := true; mp_segs := l |}, rest)
@@ -112,7 +117,12 @@ Definition classify_value (last : bool) (v : toks) : outcome nvexpr :=
       if is_lit_tok t then Ok (XLit t)
       else match parse_path_all v with
            | Ok p => Ok (XPath p)
-           | _ => OutOfDomain "name-value expression"
+           | _ =>
+               (* a lone keyword (or `_`) is not an expression for syn without "full" *)
+               match t with
+               | TIdent _ => Err E_syn
+               | _ => OutOfDomain "name-value expression"
+               end
            end
   | [TPunct "-"; t] =>
       if is_num_lit t then Ok (if last then XNegLit t else XUnaryNeg t)
@@ -334,6 +344,8 @@ Definition parse_where_predicates (ts : toks) : outcome (list toks) :=
       let cs' := if is_nil (last cs []) then removelast cs else cs in
       if forallb pred_ok cs' then Ok cs'
       else if existsb is_nil cs' then Err E_syn
+      (* no `:` at all in a predicate: whatever is parsed first, the `:` is then missed *)
+      else if existsb (fun c => negb (existsb (is_punct ":") c)) cs' then Err E_syn
       else OutOfDomain "where predicate"
   end.
 
